@@ -31,6 +31,7 @@ T2 = 'tuple[int,bool]'
 
 def register(reg):
     S = ['C03', 'C16']
+    register_options(reg)
     # a child is None (placeholder), a token or a tree; only trees of inlined `_rules` are opened.  None is the null reference.
     reg.cls('Node', fields={'children': 'list[opt[Node]]'})
     reg.cls('ChildFilter', target='lark.parse_tree_builder:ChildFilter',
@@ -177,3 +178,32 @@ def register(reg):
                  # a ?rule with exactly one child is replaced by it
                  ensures=['implies(len(children) == 1, result == children[0])', 'implies(len(children) != 1, result == APPLY(self.node_builder, children))'],
                  replay=_replay)
+
+
+# ---- an alternative that leaves out a [..] gets its OWN copy of its rule's options (modifiers stay per rule), plus its placeholder layout
+def _options_region(fn):
+    import ast
+    for n in ast.walk(fn):
+        if isinstance(n, ast.If) and ast.unparse(n.test) == 'any(empty_indices)':
+            out = [s for s in n.body if (isinstance(s, ast.Assign) and ast.unparse(s.targets[0]) in ('exp_options', 'exp_options.empty_indices'))]
+            # exactly the two assignments, first in the branch: any other shape (a cache, a condition) loses the selector
+            if len(out) == 2 and n.body[:2] == out:
+                return out
+    return None
+
+
+def register_options(reg):
+    OPT = ('keep_all_tokens', 'expand1', 'priority', 'template_source')
+    reg.cls('RuleOptions', target='lark.grammar:RuleOptions', fields=dict({f: 'any' for f in OPT}, empty_indices='any'))
+    reg.contract('lark.grammar:RuleOptions.__init__', assumed=True, kind='method', modifies=['self'], params={'self': 'RuleOptions'},
+                 ensures=['self.keep_all_tokens == cast(False, any)', 'self.expand1 == cast(False, any)', 'is_none(self.priority)', 'is_none(self.template_source)'])
+    reg.contract('copy/RuleOptions', assumed=True, params={'x': 'opt[RuleOptions]'}, returns='opt[RuleOptions]',
+                 ensures=['(result is None) == (x is None)', 'implies(x is not None, fresh(val(result)))'] +
+                         ['implies(x is not None, val(result).%s == val(x).%s)' % (f, f) for f in OPT + ('empty_indices',)])
+    reg.contract('lark.load_grammar:Grammar.compile#options', serves=['C03'], region=_options_region,
+                 params={'options': 'opt[RuleOptions]', 'empty_indices': 'any'},
+                 ghost={'ensures_fall': ['fresh(exp_options)', 'exp_options.empty_indices == empty_indices'] +
+                        ['implies(options is not None, exp_options.%s == old(val(options).%s))' % (f, f) for f in OPT] +
+                        ['implies(options is not None, val(options).%s == old(val(options).%s))' % (f, f) for f in OPT + ('empty_indices',)] +      # the rule's own options object is not touched
+                        ['implies(options is None, exp_options.keep_all_tokens == cast(False, any) and exp_options.expand1 == cast(False, any) and is_none(exp_options.priority))']},
+                 names={'copy': ('contract', 'copy/RuleOptions'), 'RuleOptions': ('class', 'RuleOptions')}, replay=_replay)
